@@ -596,3 +596,26 @@ func init() {
 		return res
 	}
 }
+
+// ---- go-ipld-cbor: WrapObject yields a fresh node with a fresh CID (hashing
+// and CBOR encoding are outside the model); Cid/RawData/Size run from their SSA
+// on the fields set here.
+
+func init() {
+	const cb = "github.com/ipfs/go-ipld-cbor"
+	natives[cb+".WrapObject"] = func(m *Machine, c *frame, fn *ssa.Function, a []Value) Value {
+		T := m.eng.nativeType(cb + ".Node")
+		st := zero(T).(Struct)
+		m.cborN++
+		cidBytes := append([]byte{0x01, 0x71, 0x12, 0x20}, make([]byte, 32)...)
+		cidBytes[4] = 0xcb
+		cidBytes[34] = byte(m.cborN >> 8)
+		cidBytes[35] = byte(m.cborN)
+		st[fieldIndex(T, "cid")] = Struct{sym.Str(string(cidBytes))}
+		st[fieldIndex(T, "raw")] = bytesOf("cbor-node")
+		st[fieldIndex(T, "obj")] = a[0]
+		p := new(Value)
+		*p = st
+		return Tuple{p, Iface{}}
+	}
+}
